@@ -333,7 +333,20 @@ func runRandom(c *vrt.Ctx, plan randomPlan, pi, idx int, digest bool) {
 		if plan.fullEvery > 1 && (steps+1)%plan.fullEvery != 0 {
 			sw.rows = r.touched(o)
 		}
+		// Slices obtained before the operation are the caller's copies: the
+		// rows the operation can touch every step, the global lists every 3rd.
+		hs := r.handOutAll(r.touched(o), steps%3 == 0, steps%2 == 1)
 		alive = r.step(o, sw)
+		if alive {
+			alive = r.checkHeld(hs)
+		}
+		// Every 25th step the caller modifies the slices it is handed.
+		if alive && steps%25 == 24 {
+			alive = r.scrambleCheck(sw.rows, steps%50 == 49)
+		}
+	}
+	if alive {
+		alive = r.scrambleCheck(nil, false) && r.scrambleCheck(nil, true)
 	}
 	if alive {
 		// Final: every pair, and NewLine for every pair.
@@ -346,7 +359,7 @@ func runRandom(c *vrt.Ctx, plan randomPlan, pi, idx int, digest bool) {
 	if alive && !f.multi && !f.dense {
 		copyRoundTrip(c, r)
 	}
-	if alive && f.directed && !f.multi && !f.dense {
+	if alive && f.directed {
 		undirectView(c, r)
 	}
 	c.Count("random.histories", 1)
